@@ -37,6 +37,8 @@ func c05RunCase(c *Case) (string, []Fail) {
 		return c05TraceCase(c.Z)
 	case 3:
 		return c05BurstCase(c.Z)
+	case 4:
+		return c05OverflowCase(c.Z)
 	}
 	return "badcase", nil
 }
@@ -46,6 +48,13 @@ func c05Gen(g *Gen) {
 	for i := 0; i < g.Pick(6, 40); i++ {
 		g.Case(3, nil, []int64{int64(g.R.U64() & 0xffffff), 40, int64(20 + g.R.Intn(40))})
 		g.Count("burst-stop-cycles")
+	}
+	if g.Thorough() {
+		// queue overflow after a successful spill (known finding C05-dropped-chunk-file-kept): Z = seed, records
+		for i := 0; i < 5; i++ {
+			g.Case(4, nil, []int64{int64(g.R.U64() & 0xffffff), int64(12 + g.R.Intn(10))})
+			g.Count("queue-overflow")
+		}
 	}
 	n := g.Pick(24, 300)
 	for i := 0; i < n; i++ {
@@ -387,4 +396,111 @@ func c05BurstCase(z []int64) (string, []Fail) {
 		}
 	}
 	return "ok:burst", fails
+}
+
+// c05OverflowCase reproduces the situation excluded by the hypothesis order_safe of the theorems: with a tiny queue
+// (4 chunks, window 2) and an upstream that accepts nothing, the chunks beyond the queue capacity are spilled to
+// their files and then counted as dropped - but the files stay.  When the upstream becomes healthy the queued chunks
+// and a later record are delivered; after a restart the "dropped" files are recovered and delivered after the later
+// record.  Failures carry the signature of the known finding.
+func c05OverflowCase(z []int64) (string, []Fail) {
+	if len(z) != 2 || z[1] < 8 || z[1] > 200 {
+		return "badcase", nil
+	}
+	seed, nrec := int(z[0]), int(z[1])
+	harness := func(err error) (string, []Fail) { return "err:harness", []Fail{{"c05:harness", err.Error()}} }
+	dir, err := os.MkdirTemp("", "c05o-")
+	if err != nil {
+		return harness(err)
+	}
+	defer os.RemoveAll(dir)
+	p := e2eDefaultParams()
+	p.ChunkMaxRecords = 1
+	p.MemLen = 2
+	p.QueueLen = 4
+	p.BatchRecords = 1
+	p.PingMs = 50
+	e2eApplyParams(p)
+	tr := newE2ETrace()
+	srv, err := newFakeFluentd("out1", tr)
+	if err != nil {
+		return harness(err)
+	}
+	defer srv.Close()
+	srv.SetTail(ffStep{Mode: ffRefuse})
+	ag, err := e2eNewAgent(e2eConfig{Dir: dir, Keys: []string{"app"}, Outputs: []e2eOutput{{Name: "out1", Addr: srv.Addr(), Mode: c01Modes(seed), MaxBufSize: "1GB"}}}, tr)
+	if err != nil {
+		return harness(err)
+	}
+	if err := ag.Start(); err != nil {
+		return harness(err)
+	}
+	mk := func(i int) e2eRecord {
+		return e2eMakeRecord(e2eStamp{Conn: 0, Seq: i}, e2eRecordSpec{Class: rcGood, Pri: 14, App: "ka", Source: "x1", Host: "h1", Payload: "overflow", TimeIdx: i})
+	}
+	var recs []e2eRecord
+	for i := 0; i < nrec; i++ {
+		recs = append(recs, mk(i))
+	}
+	cl, err := e2eDial(ag.Addr(), 0, tr)
+	if err != nil {
+		return harness(err)
+	}
+	_ = cl.Send(recs, nil)
+	if !ag.WaitInputSeen(nrec, 6*time.Second) {
+		return "err:input", []Fail{{"c05:harness", "input not consumed"}}
+	}
+	// the worker closes a chunk per record; wait until the drops have been counted
+	deadline := time.Now().Add(5 * time.Second)
+	for ag.Metric("process_buffer_dropped_chunks_total", nil) == 0 && time.Now().Before(deadline) {
+		time.Sleep(5 * time.Millisecond)
+	}
+	drops := int(ag.Metric("process_buffer_dropped_chunks_total", nil))
+	srv.SetTail(ffStep{Mode: ffHealthy})
+	// wait until what was queued has been delivered, then one more record
+	srv.WaitFor(func(ch []*ffChunk) bool {
+		n := 0
+		for _, c := range ch {
+			if c.Acked {
+				n++
+			}
+		}
+		return n >= 3
+	}, 10*time.Second)
+	late := mk(nrec)
+	_ = cl.Send([]e2eRecord{late}, nil)
+	srv.WaitAckedStamps(map[e2eStamp]bool{late.Stamp: true}, 10*time.Second)
+	cl.Close(false)
+	if err := ag.Restart(); err != nil {
+		return harness(err)
+	}
+	want := map[e2eStamp]bool{}
+	for _, qf := range ag.QueueFiles("out1") {
+		for _, st := range qf.stamps() {
+			want[st] = true
+		}
+	}
+	srv.WaitAckedStamps(want, 10*time.Second)
+	if err := ag.Stop(); err != nil {
+		return "err:stop-hang", []Fail{{"c05:stop-hang", err.Error()}}
+	}
+	var fails []Fail
+	seen := map[e2eStamp]bool{}
+	last := -1
+	for _, c := range srv.Chunks() {
+		for _, st := range c.Stamps() {
+			if seen[st] {
+				continue
+			}
+			seen[st] = true
+			if st.Seq < last && len(fails) < 2 {
+				fails = append(fails, Fail{"c05:stream-order:overflow", fmt.Sprintf("overflow seed %d (%d records, queue 4, window 2, %d chunks counted dropped): record %s is first delivered (upstream connection %d) after record 0.%d which arrived later - its chunk was counted as dropped at queue overflow but its file stayed and was recovered at the restart",
+					seed, nrec, drops, st, c.Attempt, last)})
+			}
+			if st.Seq > last {
+				last = st.Seq
+			}
+		}
+	}
+	return "ok:overflow", fails
 }
